@@ -218,6 +218,8 @@ class Source:
         self.repo = repo
         self.files = {}
         self.index = {}
+        self.allfns = {}
+        self.addressed = set()
 
     def load(self, rel):
         if rel in self.files:
@@ -229,18 +231,27 @@ class Source:
         self.files[rel] = src
         top = split_items(src, 0, len(src))
         idx = {}
+        allf = []
         for it in top:
             if it['kind'] in ('impl', 'trait'):
                 cname = it['name'] if it['kind'] == 'impl' else norm('trait ' + it['name'])
                 ob = it['header_end']
                 cb = match_close(src, ob)
                 inner = split_items(src, ob + 1, cb)
+                inherent = it['kind'] == 'impl' and not re.search(r'\bfor\b', re.sub(r'<[^<>]*>', '', re.sub(r'<[^<>]*>', '', it['header'])))
                 for sub in inner:
                     idx.setdefault((cname, sub['name']), []).append(sub)
+                    if sub['kind'] == 'fn':
+                        allf.append(dict(rel=rel, cont=cname, name=sub['name'], item=sub, inherent=inherent, free=False))
                 idx.setdefault(('-', cname), []).append(it)
             else:
                 idx.setdefault(('-', it['name']), []).append(it)
+                if it['kind'] == 'fn':
+                    allf.append(dict(rel=rel, cont='-', name=it['name'], item=it, inherent=False, free=True))
+            if it['kind'] == 'mod' and it['header_end'] is not None and src[it['header_end']] == '{' and it['name'] == 'tests':
+                pass
         self.index[rel] = idx
+        self.allfns[rel] = allf
         return src
 
     def find(self, rel, container, name):
@@ -249,7 +260,53 @@ class Source:
         hits = self.index[rel].get(key, [])
         if len(hits) != 1:
             raise Lost('anchor %s :: %s :: %s matched %d items' % (rel, container, name, len(hits)))
+        self.addressed.add((rel, key[0], name))
         return src, hits[0]
+
+    def helpers(self):
+        """E14 candidates: functions of the loaded source files that no template hole addresses,
+        that are inherent methods or free functions, unique by name, and whose body is a single
+        expression without `?`/return/loops/closures.  name -> (params, has_self, body_expr)"""
+        cand = {}
+        for rel, fns in self.allfns.items():
+            src = self.files[rel]
+            for f in fns:
+                if (f['rel'], f['cont'], f['name']) in self.addressed:
+                    cand.setdefault(f['name'], []).append(None)
+                    continue
+                if not (f['inherent'] or f['free']):
+                    continue
+                it = f['item']
+                he = it['header_end']
+                if he is None or src[he] != '{':
+                    continue
+                body = src[he + 1:it['end'] - 1]
+                code = ''.join(ch for _, ch in scan_code(body))
+                if ';' in code or '?' in code or re.search(r'\b(return|loop|while|for|unsafe|let|match)\b', code) or '|' in code:
+                    continue
+                sig = strip_attrs(src[it['start']:he])
+                m = re.search(r'\bfn\s+\w+\s*(<[^>]*>)?\s*\(', sig)
+                if not m or m.group(1):
+                    continue
+                ob = m.end() - 1
+                cb = match_close(sig, ob)
+                params = [x.strip() for x in sig[ob + 1:cb].split(',') if x.strip()]
+                has_self = False
+                names = []
+                ok = True
+                for pi, prm in enumerate(params):
+                    if pi == 0 and prm in ('&self', 'self'):
+                        has_self = True
+                        continue
+                    mm = re.match(r'^([a-z_][A-Za-z0-9_]*)\s*:', prm)
+                    if not mm or 'mut' in prm.split(':')[0]:
+                        ok = False
+                        break
+                    names.append(mm.group(1))
+                if not ok or '->' not in sig[cb:]:
+                    continue
+                cand.setdefault(f['name'], []).append(dict(params=names, has_self=has_self, body=body.strip(), where='%s::%s::%s' % (rel, f['cont'], f['name'])))
+        return {k: v[0] for k, v in cand.items() if len(v) == 1 and v[0] is not None}
 
     def sha(self):
         return {rel: hashlib.sha256(s.encode()).hexdigest() for rel, s in sorted(self.files.items())}
@@ -319,6 +376,87 @@ def widen_vis(text):
     return re.sub(r'^pub\s*\([^)]*\)\s+', 'pub ', text)
 
 
+def split_args(text):
+    args, depth, cur = [], 0, ''
+    for ch in text:
+        if ch in '([{':
+            depth += 1
+        elif ch in ')]}':
+            depth -= 1
+        if ch == ',' and depth == 0:
+            args.append(cur.strip())
+            cur = ''
+        else:
+            cur += ch
+    if cur.strip():
+        args.append(cur.strip())
+    return args
+
+
+def inline_helpers(body, helpers, rules, self_ok=True):
+    """E14: replace calls of simple unaddressed helpers by their body expression (receiver and
+    arguments substituted textually, everything parenthesised).  Returns new body."""
+    for _round in range(4):
+        changed = False
+        code_pos = set(p for p, _ in scan_code(body))
+        for name, h in helpers.items():
+            for m in re.finditer(r'(?<![A-Za-z0-9_])%s\s*\(' % re.escape(name), body):
+                if m.start() not in code_pos:
+                    continue
+                ob = m.end() - 1
+                try:
+                    cb = match_close(body, ob)
+                except Lost:
+                    continue
+                args = split_args(body[ob + 1:cb])
+                start = m.start()
+                recv = None
+                if h['has_self']:
+                    if start == 0 or body[start - 1] != '.':
+                        continue
+                    # walk back over the receiver: a postfix chain of identifiers, fields, calls, indexing
+                    i = start - 2
+                    depth = 0
+                    while i >= 0:
+                        ch = body[i]
+                        if ch in ')]':
+                            depth += 1
+                        elif ch in '([':
+                            if depth == 0:
+                                break
+                            depth -= 1
+                        elif depth == 0 and not (ch.isalnum() or ch in '_.'):
+                            break
+                        i -= 1
+                    recv = body[i + 1:start - 1]
+                    if not recv.strip():
+                        continue
+                    start = i + 1
+                else:
+                    if start > 0 and body[start - 1] in '.:':
+                        # Type::name(..) path call: drop the path
+                        mm = re.search(r'([A-Za-z_][A-Za-z0-9_]*(::<[^>]*>)?::)+$', body[:start])
+                        if body[start - 1] == '.' or not mm:
+                            continue
+                        start = mm.start()
+                if len(args) != len(h['params']):
+                    continue
+                expr = h['body']
+                for pn, av in zip(h['params'], args):
+                    expr = re.sub(r'(?<![A-Za-z0-9_.])%s(?![A-Za-z0-9_])' % re.escape(pn), '(' + av.replace('\\', '\\\\') + ')', expr)
+                if recv is not None:
+                    expr = re.sub(r'(?<![A-Za-z0-9_])self(?![A-Za-z0-9_])', recv.replace('\\', '\\\\'), expr)
+                body = body[:start] + '(' + expr + ')' + body[cb + 1:]
+                rules.append('E14-inline:' + h['where'])
+                changed = True
+                break
+            if changed:
+                break
+        if not changed:
+            break
+    return body
+
+
 class Emitter:
     def __init__(self, source, specs_dir):
         self.source = source
@@ -327,6 +465,13 @@ class Emitter:
         self.functions = []  # metadata
         self.cur_tags = []
         self.macros = {}
+        self.inline = False
+        self._helpers = None
+
+    def helpers_now(self):
+        if self._helpers is None:
+            self._helpers = self.source.helpers()
+        return self._helpers
 
     def expand(self, line):
         """expand @NAME(args) textual macros (template-side only, never applied to repo text)"""
@@ -559,6 +704,8 @@ class Emitter:
                     raise Lost('substitution /%s/ lost in %s' % (a, hdr))
                 rules.append('SUB:' + a)
                 b = b2
+            if self.inline:
+                b = inline_helpers(b, self.helpers_now(), rules)
             inserts = []  # (pos, text)
             if loops:
                 lp = find_loops(b)
@@ -633,7 +780,11 @@ def index_lemmas(text):
 def build(repo, specs_dir, template, out_path, negate=False):
     src = Source(repo)
     em = Emitter(src, specs_dir)
-    em.process(template, negate)
+    em.process(template, negate)          # pass 1: learns which functions the template addresses
+    em2 = Emitter(src, specs_dir)
+    em2.inline = True                     # pass 2: E14 inlining of simple unaddressed helpers
+    em2.process(template, negate)
+    em = em2
     text = ''.join(em.out)
     fns = em.functions + index_lemmas(text)
     os.makedirs(os.path.dirname(out_path), exist_ok=True)
